@@ -150,6 +150,9 @@ struct Prog
 			c.sep = ip::tcp::endpoint(addrs[std::size_t(c.sn)], std::uint16_t(4100 + i));
 			API(c.acc->open(ip::tcp::v4(), ec)); API(c.acc->bind(c.sep, ec)); API(c.acc->listen(5, ec));
 			c.cs.reset(new ip::tcp::socket(*ios[std::size_t(c.cn)])); c.ss.reset(new ip::tcp::socket(*ios[std::size_t(c.sn)]));
+			// socket objects with a past: opened for the other address family and closed again before this use
+			for (auto* so : {c.cs.get(), c.ss.get()})
+				if (rng.coin(1, 4)) { API(so->open(ip::tcp::v6(), ec)); API(so->close(ec)); R().count("tcp_sockets_previously_opened_as_v6"); }
 			Side* sd[2] = {&c.c, &c.s};
 			std::uint64_t const kc = mix64(hcomb(a.seed, keyseq++)), ks = mix64(hcomb(a.seed, keyseq++));
 			for (int k = 0; k < 2; ++k)
